@@ -216,7 +216,7 @@ func TestC20Lanes(t *testing.T) {
 	users := []henv.User{henv.MakeUser("lane-0"), henv.MakeUser("lane-1"), henv.MakeUser("lane-2"), henv.MakeUser("lane-3")}
 	l2 := henv.NewL2(henv.L2Options{Admin: users[0].Str, Executors: []string{users[0].Str}})
 	sys := lanes.SystemLaneMatchHandler()
-	runRapid(t, 5000, 50000, func(rt *rapid.T) {
+	runRapid(t, 5000, 150000, func(rt *rapid.T) {
 		c := rec.Begin()
 		c.Class("lanes")
 		var genMsg func(depth int) (sdk.Msg, string)
@@ -317,7 +317,7 @@ func TestC20Lanes(t *testing.T) {
 
 func TestC20Redundant(t *testing.T) {
 	rec := evid.For("C20")
-	runRapid(t, 1500, 15000, func(rt *rapid.T) {
+	runRapid(t, 1500, 60000, func(rt *rapid.T) {
 		c := rec.Begin()
 		c.Class("redundancy")
 		tc := newTwoChain(tcOpts{nExecutors: rapid.IntRange(1, 3).Draw(rt, "executors")})
